@@ -113,7 +113,8 @@ def gen_strings(ctx, binary, cases, table):
     out = []
     strata = {}
     for i, cmd, r in vfcore.pmap(one, range(shards), workers=shards):
-        crash = ctx.classify_crash(r)
+        # only stderr is classified: the regular expressions of classify_crash are quadratic on megabytes of hex output
+        crash = ctx.classify_crash(vfcore.Result(r.rc, "", r.err, r.timed_out, r.wall))
         if crash:
             import re
             m = re.search(r"@@VFCASE (\S+)", r.err)
@@ -155,7 +156,7 @@ def gen_strings(ctx, binary, cases, table):
     return out
 
 
-def filt_roundtrip(ctx, groups, argv_cases):
+def filt_roundtrip(ctx, groups, stdin_cases, argv_cases):
     filt = vfcore.tool("asan", "tfel-unicode-filt")
     if not filt.exists():
         raise vfcore.HarnessFailure("%s not built" % filt)
@@ -222,7 +223,8 @@ def filt_roundtrip(ctx, groups, argv_cases):
 
     def do_stdin(pairs):
         return pairs, run_stdin(pairs)
-    for pairs, res in vfcore.pmap(do_stdin, [g for g in groups if g]):
+    per = max(1, stdin_cases // max(1, len(groups)))
+    for pairs, res in vfcore.pmap(do_stdin, [g[:per] for g in groups if g]):
         stats["stdin_lines"] += len(pairs)
         stats["stdin_runs"] += 1
         ctx.add_eval(len(pairs))
@@ -249,10 +251,10 @@ def run(ctx):
     ctx.cov["rule"] = ("table: one case per entry (+ one per adjacent pair of sorted mangled names for the prefix test); strings: one case = "
                        "random string of 0..40 items drawn from printable ASCII (hex digits and '_' over-represented, fragments of the prefix), "
                        "supported characters, other valid UTF-8 characters, in four strata; a string counts as distinct non-trivial when it "
-                       "contains at least one supported character; each mangled string is then fed to tfel-unicode-filt")
+                       "contains at least one supported character; a fixed share of the mangled strings (see tfel-unicode-filt counters) is then fed to tfel-unicode-filt")
     table = check_table(ctx, b["asan"])
     if not table:
         return
     groups = gen_strings(ctx, b["asan"], ctx.n(100000, 5000000), table)
-    filt_roundtrip(ctx, groups, ctx.n(3000, 60000))
+    filt_roundtrip(ctx, groups, ctx.n(40000, 1000000), ctx.n(2000, 40000))
     ctx.assumptions += ["inputs are valid UTF-8 lines without newline/NUL", "inputs containing 'tfel_unicode_mangling_' are outside the round-trip claim"]
